@@ -165,6 +165,9 @@ def push_hist(c, d):
     if m:
         keys.append('threads=' + m.group(1))
     # do the hypotheses of the refinement theorems hold for (the first invocation of) this case?
+    m = re.search(r' THM=(\w+)', d)
+    if m:
+        keys.append('refinement-theorem-instance=' + {'ok': 'checked-on-the-executed-model', 'na': 'not-applicable'}.get(m.group(1), m.group(1)))
     m = re.search(r' HYP=(\w+)', d)
     if m:
         keys.append('refinement-theorem-hypotheses=' + {'1': 'hold', '0': 'do-not-hold', 'na': 'not-applicable'}.get(m.group(1), m.group(1)))
@@ -408,8 +411,9 @@ PROPS['C13'] = {
 PROPS['C05'] = {
     'theorems': ['RQ.Abs.C05_apply_refines', 'RQ.Abs.C05_tree_on_disk', 'RQ.Abs.C05_oracle_agrees', 'RQ.Abs.C05_disk_is_oracle', 'RQ.Abs.C05_pushSpec_agrees', 'RQ.Abs.C05_disk_is_pushSpec', 'RQ.Abs.C05_exit_and_names',
                  'RQ.Refine2.C05_push_refines_pushSpec', 'RQ.Refine2.C05_push_refines_pushSpec_any', 'RQ.Refine2.C05_push_refines_pushSpec_files', 'RQ.Refine2.C05_push_refines_pushSpec_whole', 'RQ.Refine2.C05_push_refines_pushSpec_all',
-                 'RQ.Refine2.C05_driver_succeeds', 'RQ.Refine2.C05_push_is_pushSpec', 'RQ.Refine2.C05_push_is_pushSpec_all', 'RQ.Refine2.C05_exit_zero_iff', 'RQ.Refine2.C05_whole_range_applies'],
-    'extra_modules': ['RQ.Props.C05Refine', 'RQ.Props.C08Refine', 'RQ.Props.C05Complete'],
+                 'RQ.Refine2.C05_driver_succeeds', 'RQ.Refine2.C05_push_is_pushSpec', 'RQ.Refine2.C05_push_is_pushSpec_all', 'RQ.Refine2.C05_exit_zero_iff', 'RQ.Refine2.C05_whole_range_applies',
+                 'RQ.HypsSound.hypsHold_sound', 'RQ.Refine2.C05_checked_instance', 'RQ.Refine2.C05_checked_exit_zero_iff'],
+    'extra_modules': ['RQ.Props.C05Refine', 'RQ.Props.C08Refine', 'RQ.Props.C05Complete', 'RQ.Props.C05Hyps'],
     'verdict': 'SPEC',
     'jobs': push_jobs(['inv=2', 'patches=5'], ['inv=3', 'patches=6'], nq=4000) +
             [{'quick': ['pushsched', 'seed={seed}', 'n=900', 'perws=3', 'fail=75', 'morefail=70'], 'thorough': ['pushsched', 'seed={seed}1', 'n=1500', 'perws=6', 'fail=75', 'morefail=70']}] + [{'quick': None, 'thorough': ['pushsched', 'seed={seed}%d' % k, 'n=1500', 'perws=6', 'fail=75', 'morefail=70']} for k in range(2, 7)],
